@@ -117,13 +117,16 @@ class Ctx:
             lock.close()
         return os.path.join(HARNESS, "target", "release", bin_name)
 
-    def run_bin(self, binary, args, timeout=1800, env=None, ok_codes=(0,)):
+    def run_bin(self, binary, args, timeout=3600, env=None, ok_codes=(0,)):
         e = dict(os.environ)
         if env:
             e.update(env)
         t = time.time()
-        r = subprocess.run([binary] + [str(a) for a in args], cwd=self.work, env=e,
-                           stdout=subprocess.PIPE, stderr=subprocess.PIPE, text=True, timeout=timeout)
+        try:
+            r = subprocess.run([binary] + [str(a) for a in args], cwd=self.work, env=e,
+                               stdout=subprocess.PIPE, stderr=subprocess.PIPE, text=True, timeout=timeout)
+        except subprocess.TimeoutExpired:
+            raise ToolError("%s %s timed out after %ss" % (os.path.basename(binary), args[0] if args else "", timeout))
         if r.returncode not in ok_codes:
             sys.stdout.write(r.stdout[-3000:])
             sys.stdout.write(r.stderr[-3000:])
